@@ -3,7 +3,7 @@
    cfg   = which request carries the connection's grease frame (- : grease off); u1: the transport reports a
            STOP_SENDING seen by finish as a transport-specific (Unknown) error, u0: as StreamTerminated
    req   = <events>;<stop code|->;<pad>;<hsize>;<body hex|->;<size of the trailer section we send|->
-   event = h | hm<j> | ho | hq | hp<n> | dq<total> | d<total>:<hex|-> | m<hex> | F | R<code>      (dot separated)
+   event = h | hm<j> | ho | hq | hp<n> | dq<total> | d<total>:<hex|-> | m<hex> | F | R<code> | K  (dot separated)
            t | tm<j> | to | tq | tp<n>   the same kinds for a trailer section
    act   = o<i> | e<i> | s<i> | p<i> | pd | gS<v> | gG
    Output: model observation | specification (allowances per request, see lib/props/c07.py) *)
@@ -34,7 +34,8 @@ let parse_event (t : string) : ev =
   else if starts t "tp" then EPartial
   else if starts t "dq" then EPartial
   else if t = "F" then EFin
-  else if starts t "R" then EReset (n_of_string (sub_from t 1))
+  else if t = "K" then EReset None                      (* the receive half fails with a transport-specific error *)
+  else if starts t "R" then EReset (Some (n_of_string (sub_from t 1)))
   else if starts t "m" then EMore (bytes_of_hex (sub_from t 1))
   else if starts t "d" then begin
     match String.split_on_char ':' (sub_from t 1) with
@@ -46,7 +47,7 @@ type rq = { script : ev list; stop : n option; hsize : n; body : n list; trlz : 
 
 let parse_req (s : string) : rq =
   match String.split_on_char ';' s with
-  | [evs; stop; _pad; z; body; tz] ->
+  | evs :: stop :: _pad :: z :: body :: tz :: ([] | [_]) ->
       { script = (if evs = "-" then [] else
                   (* a trailer-shaped section in FIRST position is a message header without its pseudo-header fields *)
                   List.mapi (fun i t -> match parse_event t with
@@ -125,9 +126,11 @@ let allow_str = function
 let rec nth_req l i = match l with [] -> failwith "req index" | x :: t -> if i = 0 then x else nth_req t (i - 1)
 
 let handle ws = match ws with
-  | ["sf"; role; cf; rs; sc] when starts cf "cfg=" && starts rs "r=" && starts sc "sched=" ->
+  | [fam; role; cf; rs; sc] when (fam = "sf" || fam = "sfx") && starts cf "cfg=" && starts rs "r=" && starts sc "sched=" ->
+      (* family sfx (other application patterns, write back-pressure): no model run, the specification only *)
+      let ext = (fam = "sfx") in
       let holder, unk = (match String.split_on_char ',' (sub_from cf 4) with
-        | [g; u] -> ((if g = "g-" then None else Some (int_of_string (sub_from g 1))), u = "u1")
+        | g :: u :: _ -> ((if g = "g-" then None else Some (int_of_string (sub_from g 1))), u = "u1")
         | _ -> failwith "cfg") in
       let role = if role = "s" then Server else if role = "c" then Client else failwith "role" in
       let reqs = Array.of_list (List.map parse_req (String.split_on_char '/' (sub_from rs 2))) in
@@ -137,19 +140,20 @@ let handle ws = match ws with
       let w0 = { sh = sh0;
                  reqs = List.mapi (fun i q -> init_req (mkcfg i q) q.script)
                           (Array.to_list reqs) } in
-      let acts = actions_of reqs toks in
+      let toks_m = if ext then [] else toks in
+      let acts = actions_of reqs toks_m in
       let w = run acts w0 in
       let n = Array.length reqs in
       let words = List.mapi (fun i r -> "r" ^ string_of_int i ^ "=" ^ req_str r) w.reqs in
       (* every request again, alone: only its own actions and the connection-level ones *)
       let diffs = ref [] in
       for j = n - 1 downto 0 do
-        let acts_j = actions_of reqs (List.filter (touches j) toks) in
+        let acts_j = actions_of reqs (List.filter (touches j) toks_m) in
         let wj = run acts_j w0 in
         if req_str (nth_req wj.reqs j) <> req_str (nth_req w.reqs j) then diffs := string_of_int j :: !diffs
       done;
       let solo = if !diffs = [] then "solo=same" else "solo=diff" ^ String.concat "." !diffs in
-      let m = "ok " ^ String.concat " " words ^ " " ^ conn_str w.sh ^ " " ^ solo in
+      let m = if ext then "-" else "ok " ^ String.concat " " words ^ " " ^ conn_str w.sh ^ " " ^ solo in
       (* specification: the table, with the disturbances present in this schedule *)
       let limit = List.fold_left (fun acc t -> if acc = None && starts t "gS" then Some (n_of_string (sub_from t 2)) else acc) None toks in
       let goaway = List.mem "gG" toks in
